@@ -17,6 +17,11 @@ def main():
     if sh(f'git -C {REPO} status --porcelain').stdout.strip():
         print('HARNESS-ERROR: /repo working tree is not clean'); return 2
     results = []
+    # the checks rewrite evidence/<id>.json; keep the evidence of the unchanged tree
+    import shutil, tempfile
+    backup = tempfile.mkdtemp(prefix='ge-evidence-')
+    for f in glob.glob(os.path.join(VERIF, 'evidence', 'C*.json')):
+        shutil.copy(f, backup)
     dirs = sorted(glob.glob(os.path.join(VERIF, 'mutants', '*', 'patch.diff')) + glob.glob(os.path.join(VERIF, 'seeded', '*', 'patch.diff')))
     missed = 0
     for patch in dirs:
@@ -45,6 +50,9 @@ def main():
             results.append({'mutant': name, 'property': props, 'needs': meta.get('needs', meta.get('needs_to_manifest', '')), 'status': 'caught' if ok else 'missed', 'by': caught_by})
         finally:
             sh(f'git -C {REPO} checkout -- .')
+    for f in glob.glob(os.path.join(backup, 'C*.json')):
+        shutil.copy(f, os.path.join(VERIF, 'evidence'))
+    shutil.rmtree(backup, ignore_errors=True)
     json.dump({'tier': tier, 'results': results, 'missed': missed}, open(os.path.join(VERIF, 'evidence', 'selftest_mutants.json'), 'w'), indent=1)
     print(f'mutants: {len(results)} run, {missed} missed')
     return 0 if missed == 0 else 1
